@@ -188,7 +188,7 @@ func runC10(cs *vrt.Case) {
 			}
 			what = "fixture"
 		} else {
-			cfg := mpclgen.Config{Args: P, ScalarArgs: true, Funcs: true, Loops: true, Mult: true, NoConst: true, MaxStmts: 3, Widths: []int{1, 2, 3, 7, 8, 9, 15, 16, 17, 31, 32, 33}}
+			cfg := mpclgen.Config{Args: P, ScalarArgs: true, Funcs: true, Loops: true, Mult: true, NoConst: true, MaxStmts: 3, Widths: []int{1, 2, 3, 7, 8, 9, 15, 16, 17, 31, 32, 33, 64, 65, 100}}
 			if r.Intn(3) == 0 {
 				// the GMW divider is large: divisions only at small widths
 				cfg.Division, cfg.Widths = true, []int{2, 3, 7, 8, 9, 12}
